@@ -352,9 +352,13 @@ def check_traversals(ctx, t: ch.Tables):
                               f"{e.name} raised {msg[:200]} on {spec}",
                               {"check": "traversal", "mapper": e.name, "graph": spec, "error": msg})
                 continue
+            # which edges the mapper follows is read off today's table.  A mapper documented to skip
+            # function bodies may still invoke its (empty) method on the FunctionDefinition itself
+            # (TopoSortMapper.map_call -> map_function_definition returns at once): what the scope
+            # exclusion promises is that nothing BELOW the definition (`ret` edges) is visited.
             excl = ch.exclusions_for(t, e.name)
             if e.name in t.skips:
-                excl = sorted(set(excl) | {("*", "function"), ("*", "ret")})
+                excl = sorted(set(excl) | {("*", "ret")})
             pending.append(("log", e, spec, v, log, len(queries)))
             queries.append(model_log(v, excl))
             if not e.cached and len(v.nodes) <= 40:
